@@ -618,3 +618,20 @@ func (w *W) NewClient() *Client {
 	}
 	return &Client{Mgr: m, Cfg: cfg}
 }
+
+// LockWaiters describes the library threads that are blocked on a lock (not on a
+// channel or the transport): the signature of a wedge. Empty when none is.
+func LockWaiters() string {
+	var out []string
+	for _, t := range mc.LiveThreads() {
+		if !(strings.HasPrefix(t.Name, "gorums.") || strings.HasPrefix(t.Name, "dev.")) {
+			continue
+		}
+		switch t.Pending {
+		case "mutex.Lock", "rw.Lock.acquire", "rw.Lock.announce", "rw.RLock":
+			out = append(out, t.Name+"@"+t.Pending)
+		}
+	}
+	sort.Strings(out)
+	return strings.Join(out, ",")
+}
